@@ -466,24 +466,21 @@ impl<'a> Searcher<'a> {
                             .iter()
                             .enumerate()
                             .map(|(idx, i)| {
-                                if let Some(a) = a.get(*i) {
-                                    if let Ok(a) = a.1.parse::<i64>() {
-                                        if let Some(b) = b.get(*i) {
-                                            if let Ok(b) = b.1.parse::<i64>() {
-                                                return if directions[idx] { 
-                                                    a.cmp(&b) 
-                                                } else { 
-                                                    b.cmp(&a) 
-                                                };
-                                            }
-                                        }
-                                    }
+                                let a = &a.get(*i).unwrap().1;
+                                let b = &b.get(*i).unwrap().1;
+                                // a total order (sort_by panics otherwise): integers by value,
+                                // integers before text, text by string comparison
+                                let ordering = match (a.parse::<i64>(), b.parse::<i64>()) {
+                                    (Ok(a), Ok(b)) => a.cmp(&b),
+                                    (Ok(_), Err(_)) => std::cmp::Ordering::Less,
+                                    (Err(_), Ok(_)) => std::cmp::Ordering::Greater,
+                                    (Err(_), Err(_)) => a.cmp(b),
+                                };
+                                if directions[idx] {
+                                    ordering
+                                } else {
+                                    ordering.reverse()
                                 }
-                                if directions[idx] { 
-                                    a.get(*i).unwrap().1.cmp(&b.get(*i).unwrap().1) 
-                                } else { 
-                                    b.get(*i).unwrap().1.cmp(&a.get(*i).unwrap().1) 
-                                } 
                             })
                             .find(|r| *r != std::cmp::Ordering::Equal)
                             .unwrap_or(std::cmp::Ordering::Equal)
